@@ -1,1 +1,150 @@
-fn main() {}
+//! The executable every generated monorail command is a copy (hard link) of.
+//!
+//! It identifies itself by the stem of argv[0] (the command name) and its working directory
+//! relative to $MRHELPER_ROOT (the target), looks up its script under the key "<command>|<target>"
+//! (fallbacks "<command>|*", "*") in the JSON file $MRHELPER_PLAN, follows it, and records what it
+//! observed in $MRHELPER_TRACE/<pid>.start.json and <pid>.end.json (each written to a temporary
+//! name and renamed, so a reader never sees a partial record).
+//!
+//! Script fields (all optional):
+//!   "exit": n                       exit status (default 0)
+//!   "sleep_ms": n                   sleep before exiting
+//!   "steps": [[delay_ms, fd, hex]]  after delay_ms write the bytes to fd 1 / 2 (unbuffered)
+//!   "barrier": {"dir": d, "n": k, "timeout_ms": t}
+//!                                   create d/<pid>, wait until d holds >= k entries, else exit 99
+//!   "redirect": true                close stdout/stderr first (task detaches from its pipes)
+use std::io::Write;
+use std::time::Duration;
+
+#[repr(C)]
+struct Timespec {
+    tv_sec: i64,
+    tv_nsec: i64,
+}
+extern "C" {
+    fn clock_gettime(clk: i32, ts: *mut Timespec) -> i32;
+}
+fn mono_ns() -> u128 {
+    let mut ts = Timespec { tv_sec: 0, tv_nsec: 0 };
+    unsafe {
+        clock_gettime(1, &mut ts); // CLOCK_MONOTONIC
+    }
+    (ts.tv_sec as u128) * 1_000_000_000 + ts.tv_nsec as u128
+}
+
+fn hex(b: &[u8]) -> String {
+    b.iter().map(|x| format!("{:02x}", x)).collect()
+}
+fn unhex(s: &str) -> Vec<u8> {
+    (0..s.len() / 2).map(|i| u8::from_str_radix(&s[2 * i..2 * i + 2], 16).unwrap_or(0)).collect()
+}
+
+fn write_record(dir: &str, name: &str, v: &serde_json::Value) {
+    let tmp = format!("{}/.{}.tmp", dir, name);
+    let fin = format!("{}/{}", dir, name);
+    if std::fs::write(&tmp, v.to_string()).is_ok() {
+        let _ = std::fs::rename(&tmp, &fin);
+    }
+}
+
+fn main() {
+    use std::os::unix::ffi::OsStrExt;
+    let t_start = mono_ns();
+    let args: Vec<std::ffi::OsString> = std::env::args_os().collect();
+    let argv0 = std::path::PathBuf::from(&args[0]);
+    let command = argv0.file_stem().map(|s| s.to_string_lossy().to_string()).unwrap_or_default();
+    let cwd = std::env::current_dir().unwrap_or_default();
+    let root = std::env::var("MRHELPER_ROOT").unwrap_or_default();
+    let target = cwd
+        .strip_prefix(&root)
+        .map(|p| p.to_string_lossy().to_string())
+        .unwrap_or_else(|_| cwd.to_string_lossy().to_string());
+    let pid = std::process::id();
+    let trace_dir = std::env::var("MRHELPER_TRACE").ok();
+    let plan: serde_json::Value = std::env::var("MRHELPER_PLAN")
+        .ok()
+        .and_then(|p| std::fs::read_to_string(p).ok())
+        .and_then(|s| serde_json::from_str(&s).ok())
+        .unwrap_or(serde_json::Value::Null);
+    let script = [format!("{}|{}", command, target), format!("{}|*", command), "*".to_string()]
+        .iter()
+        .find_map(|k| plan.get(k).cloned())
+        .unwrap_or(serde_json::Value::Null);
+
+    let argv_hex: Vec<String> = args.iter().skip(1).map(|a| hex(a.as_bytes())).collect();
+    if let Some(d) = &trace_dir {
+        write_record(
+            d,
+            &format!("{}.start.json", pid),
+            &serde_json::json!({
+                "pid": pid, "command": command, "target": target, "argv0": args[0].to_string_lossy(),
+                "argv": argv_hex, "cwd": cwd.to_string_lossy(), "start_ns": t_start.to_string(),
+            }),
+        );
+    }
+
+    let mut exit_code = script.get("exit").and_then(|v| v.as_i64()).unwrap_or(0) as i32;
+
+    if script.get("redirect").and_then(|v| v.as_bool()).unwrap_or(false) {
+        extern "C" {
+            fn close(fd: i32) -> i32;
+        }
+        unsafe {
+            close(1);
+            close(2);
+        }
+    }
+
+    if let Some(b) = script.get("barrier") {
+        let dir = b.get("dir").and_then(|v| v.as_str()).unwrap_or("").to_string();
+        let n = b.get("n").and_then(|v| v.as_u64()).unwrap_or(1) as usize;
+        let timeout = b.get("timeout_ms").and_then(|v| v.as_u64()).unwrap_or(10_000);
+        let _ = std::fs::create_dir_all(&dir);
+        let _ = std::fs::write(format!("{}/{}", dir, pid), b"");
+        let t0 = std::time::Instant::now();
+        loop {
+            let k = std::fs::read_dir(&dir).map(|r| r.count()).unwrap_or(0);
+            if k >= n {
+                break;
+            }
+            if t0.elapsed() > Duration::from_millis(timeout) {
+                exit_code = 99;
+                break;
+            }
+            std::thread::sleep(Duration::from_millis(5));
+        }
+    }
+
+    if let Some(steps) = script.get("steps").and_then(|v| v.as_array()) {
+        let mut out = std::io::stdout();
+        let mut err = std::io::stderr();
+        for st in steps {
+            let delay = st.get(0).and_then(|v| v.as_u64()).unwrap_or(0);
+            let fd = st.get(1).and_then(|v| v.as_u64()).unwrap_or(1);
+            let bytes = unhex(st.get(2).and_then(|v| v.as_str()).unwrap_or(""));
+            if delay > 0 {
+                std::thread::sleep(Duration::from_millis(delay));
+            }
+            if fd == 2 {
+                let _ = err.write_all(&bytes);
+                let _ = err.flush();
+            } else {
+                let _ = out.write_all(&bytes);
+                let _ = out.flush();
+            }
+        }
+    }
+
+    if let Some(ms) = script.get("sleep_ms").and_then(|v| v.as_u64()) {
+        std::thread::sleep(Duration::from_millis(ms));
+    }
+
+    if let Some(d) = &trace_dir {
+        write_record(
+            d,
+            &format!("{}.end.json", pid),
+            &serde_json::json!({"pid": pid, "command": command, "target": target, "end_ns": mono_ns().to_string(), "exit": exit_code}),
+        );
+    }
+    std::process::exit(exit_code);
+}
